@@ -190,11 +190,47 @@ fn run(ctx: &Ctx) {
 	}
 	if ctx.tier == "thorough" {
 		let n = scaled(ctx, 0, 10_000);
-		ctx.run_prop("trees-long", n, scenario(150), run_scenario);
+		if !ctx.run_prop("trees-long", n, scenario(150), run_scenario) {
+			return
+		}
+	}
+	// growth of the reference-count table: needs a base database of ~1M nodes (built once per
+	// shard), so only a small slice runs in the quick tier
+	if ctx.tier == "thorough" || ctx.shard < 4 || std::env::var("PDBV_ONLY_SUB").is_ok() {
+		let base_dir = ctx.scratch.join("refgrow-base");
+		let base = match guarded(|| super::refgrow::build_base(&base_dir)) {
+			Ok(b) => b,
+			Err(f) => {
+				ctx.note(&format!("refcount growth sub-run skipped: base database could not be built: {} {}", f.sig, f.detail));
+				return
+			},
+		};
+		ctx.note(&format!("refcount growth base: {} nodes, {} node addresses in the chosen chunk", base.nodes, base.colliding.len()));
+		let n = if ctx.tier == "thorough" { scaled(ctx, 0, 1_400) } else { 6 };
+		if !ctx.run_prop_shrink("refcount-growth", n, 30, super::refgrow::rg_case(false), |c, dir| super::refgrow::run_case(&base, c, dir)) {
+			return
+		}
+		let n = if ctx.tier == "thorough" { scaled(ctx, 0, 1_400) } else { 6 };
+		ctx.run_prop_shrink("refcount-growth-crash", n, 30, super::refgrow::rg_case(true), |c, dir| super::refgrow::run_case(&base, c, dir));
+		let _ = std::fs::remove_dir_all(&base_dir);
 	}
 }
 
 fn replay(ctx: &Ctx, path: &Path) -> Result<(), Failure> {
+	let v: serde_json::Value = serde_json::from_str(&std::fs::read_to_string(path).map_err(|e| Failure::new("bad-replay", e.to_string()))?)
+		.map_err(|e| Failure::new("bad-replay", e.to_string()))?;
+	if v.get("sub").and_then(|s| s.as_str()).map_or(false, |s| s.starts_with("refcount-growth")) {
+		let (_s, case): (String, super::refgrow::RgCase) = load_replay(path).map_err(|e| Failure::new("bad-replay", e))?;
+		let base_dir = ctx.scratch.join("refgrow-base");
+		let base = if base_dir.join("metadata").exists() {
+			// built by an earlier repetition of this replay
+			guarded(|| super::refgrow::build_base(&base_dir))?
+		} else {
+			guarded(|| super::refgrow::build_base(&base_dir))?
+		};
+		let dir = ctx.case_dir();
+		return guarded(|| super::refgrow::run_case(&base, &case, &dir)).map(|_| ())
+	}
 	let (_sub, sc): (String, Scenario) = load_replay(path).map_err(|e| Failure::new("bad-replay", e))?;
 	let dir = ctx.case_dir();
 	guarded(|| run_scenario(&sc, &dir)).map(|_| ())
